@@ -1,1 +1,11 @@
--- Root of the `E3nnVerif` library: `lake build` (MANIFEST.setup_cmd) builds everything listed here.
+-- Root of the `E3nnVerif` library (written by harness/gen_manifest.py): `lake build` = MANIFEST.setup_cmd builds all of it.
+import E3nnVerif.Props.C04Main
+import E3nnVerif.Props.C05Main
+import E3nnVerif.Props.C04
+import E3nnVerif.Props.C05
+import E3nnVerif.Props.C06
+import E3nnVerif.Props.C12
+import E3nnVerif.Props.C13
+import E3nnVerif.Props.C14
+import E3nnVerif.Props.C17
+import E3nnVerif.Props.C20
